@@ -323,6 +323,7 @@ func (f *Frame) lockCheck(st *State, loc *Loc, write bool, pos token.Pos) {
 	}
 	name := loc.Root[2:]
 	decl := f.vc.eng.specs.globals[name]
+	name += loc.Path
 	mode := "read"
 	if write {
 		mode = "write"
